@@ -62,6 +62,9 @@ def _follow_accessor(facts, tr, body, depth=0):
 
 
 def run(facts, tr, rep):
+    # shallow view: glue methods of the service (an extracted `at_capacity`, a shared `sync_permits`) are inlined;
+    # the algorithms' methods stay calls
+    facts, tr = facts.shallow, tr.shallow
     # ------------------------------------------------------------ discover words and bounds
     algs = []
     for c in facts.crates.values():
@@ -96,7 +99,7 @@ def run(facts, tr, rep):
     nwrites = 0
     for w, (lo, hi) in sorted(words.items()):
         nwrites += _clamp_word(facts, tr, rep, w, lo, hi)
-    rep.floor("C13.limit-writes", nwrites, 9)
+    rep.floor("C13.limit-writes", nwrites, 5)      # identical update sites may be merged into one helper
 
     # ------------------------------------------------------------ PAIR on the in-flight counter
     svc = facts.adt(SERVICE_ADT)
@@ -391,6 +394,15 @@ def _clamp_word(facts, tr, rep, word, lo, hi):
             if hb is not None and depth < 20:
                 with tr.bound(hb, node):
                     rs = [ev(r, ctx, depth + 1) for r in tr.helper_returns(hb)]
+                if rs:
+                    return (all(r[0] for r in rs), all(r[1] for r in rs))
+            cc_ = tr.closure_callees(node) if depth < 20 else None
+            if cc_:
+                # `f(current)` where f is a workspace closure handed to a generic update helper (every call site counts)
+                rs = []
+                for (child_, bind_) in cc_:
+                    with bind_:
+                        rs += [ev(r, ctx, depth + 1) for r in tr.helper_returns(child_)]
                 if rs:
                     return (all(r[0] for r in rs), all(r[1] for r in rs))
             return (False, False)
